@@ -84,16 +84,7 @@ theorem closePc1_target (s : State) (p : Nat) (pc' : PConn) (h : (closePc1 s p).
     · rw [← h]; rfl
     · rename_i hn; rw [← h]; simpa using hn
 
-theorem closePc_mono (s : State) (p : Nat) : PcsMono s (closePc s p) := by
-  unfold closePc
-  split
-  · exact PcsMono.refl s
-  · split
-    · exact PcsMono.refl s
-    · dsimp only
-      split
-      · exact (closePc1_mono s p).trans (closePc1_mono _ _)
-      · exact closePc1_mono s p
+theorem closePc_mono (s : State) (p : Nat) : PcsMono s (closePc s p) := closePc1_mono s p
 
 theorem mono_closed {s s' : State} (h : PcsMono s s') (q : Nat) (qc qc' : PConn)
     (h0 : s.pcs[q]? = some qc) (h1 : s'.pcs[q]? = some qc') (hc : qc.closed = true) : qc'.closed = true := by
@@ -104,21 +95,7 @@ theorem mono_closed {s s' : State} (h : PcsMono s s') (q : Nat) (qc qc' : PConn)
   · rfl
 
 theorem closePc_target (s : State) (p : Nat) (pc' : PConn) (h : (closePc s p).pcs[p]? = some pc') :
-    pc'.closed = true := by
-  unfold closePc at h
-  split at h
-  · rename_i hn; rw [hn] at h; cases h
-  · rename_i pc hp
-    split at h
-    · rename_i hc; rw [hp] at h; cases h; exact hc
-    · dsimp only at h
-      split at h
-      · obtain ⟨qc, h0, e⟩ := closePc1_mono (closePc1 s p) _ p pc' h
-        have := closePc1_target s p qc h0
-        rcases e with rfl | rfl
-        · exact this
-        · rfl
-      · exact closePc1_target s p pc' h
+    pc'.closed = true := closePc1_target s p pc' h
 
 /-- after `closePcsWhere sel`, every packet connection is closed or not selected -/
 theorem closePcsWhere_spec (sel : PConn → Bool) (s : State) :
@@ -350,16 +327,7 @@ theorem closePc1_now (s : State) (p : Nat) : (closePc1 s p).now = s.now := by
   · rfl
   · split <;> rfl
 
-theorem closePc_now (s : State) (p : Nat) : (closePc s p).now = s.now := by
-  unfold closePc
-  split
-  · rfl
-  · split
-    · rfl
-    · dsimp only
-      split
-      · rw [closePc1_now, closePc1_now]
-      · rw [closePc1_now]
+theorem closePc_now (s : State) (p : Nat) : (closePc s p).now = s.now := closePc1_now s p
 
 theorem closePcsWhere_now (sel : PConn → Bool) (s : State) : (closePcsWhere sel s).now = s.now := by
   unfold closePcsWhere
